@@ -559,9 +559,13 @@ def decrypt_metadata(encrypted_metadata: bytes, private_key: RSA.RsaKey) -> Beac
     """
     cipher = PKCS1_v1_5.new(private_key)
     pt = cipher.decrypt(encrypted_metadata, None)
-    if pt is None:
+    # pycryptodome returns an empty plaintext (not the sentinel) when the PKCS#1 padding is invalid
+    if not pt:
         raise ValueError("Failed to RSA decrypt metadata")
-    metadata = BeaconMetadata(pt)
+    try:
+        metadata = BeaconMetadata(pt)
+    except EOFError:
+        raise ValueError("Decrypted metadata is truncated")
     if metadata.magic != 0xBEEF:
         raise ValueError(f"Invalid metadata magic, got {metadata.magic:08x}, expected 0xbeef")
     return metadata
